@@ -81,8 +81,8 @@ Lemma to_pascal_tok s : c10_tok_ok s = true -> c10_tok_ok (to_pascal_case s) = t
 Proof. apply pascal_go_tok. Qed.
 Lemma to_camel_tok s r : c10_tok_ok s = true -> to_camel_case s = Ok r -> c10_tok_ok r = true.
 Proof.
-  intros H. unfold to_camel_case. pose proof (to_pascal_tok s H) as Hp. destruct (to_pascal_case s) as [|c t]; [discriminate|].
-  destruct (c <? 128); [|discriminate]. intros E. injection E as <-. unfold c10_tok_ok in *. cbn [forallb] in *. rewrite special_alower. exact Hp.
+  intros H. unfold to_camel_case. pose proof (to_pascal_tok s H) as Hp. destruct (to_pascal_case s) as [|c t]; [intros E; injection E as <-; reflexivity|].
+  intros E. injection E as <-. unfold c10_tok_ok in *. cbn [forallb] in *. rewrite special_alower. exact Hp.
 Qed.
 
 Definition c10_go_cfg_ok (cfg : go_config) : bool :=
